@@ -71,6 +71,7 @@ package godi
 //@ func scope.Close
 //@   mode conc
 //@   interferes
+//@   nopanic
 //@   safety[C15,C13,C09]
 //@   requires recv: s != nil
 //@   ghost snap []Disposable
@@ -257,6 +258,7 @@ package godi
 //@ func provider.Close
 //@   mode conc
 //@   interferes
+//@   nopanic
 //@   safety[C15,C13,C09]
 //@   requires recv: p != nil
 //@   ghost snap []Disposable
